@@ -300,6 +300,15 @@ def compress_map(E, mask, node=None):
         E.assumptions_quant(a)
     E.st.ghost[key] = (m, g, cnt)
     E.st.ghost.setdefault('cmap_axioms', {})[key] = ax
+    # the same axioms as instantiable schemas (explicit instantiation in proof scripts)
+    E.st.ghost.setdefault('cmap_inst', {})[key] = dict(
+        base=z3.And(m >= 0, m <= n, cnt(0) == 0, m == cnt(n)),
+        rec=lambda x: z3.Implies(z3.And(x >= 0, x < n),
+                                 z3.And(cnt(x + 1) == cnt(x) + z3.If(mk(x), 1, 0), cnt(x) >= 0, cnt(x) <= x, cnt(x + 1) <= m)),
+        hit=lambda x: z3.Implies(z3.And(x >= 0, x < n, mk(x)), z3.And(g(cnt(x)) == x, cnt(x) < m)),
+        sel=lambda y: z3.Implies(z3.And(y >= 0, y < m), z3.And(g(y) >= 0, g(y) < n, mk(g(y)), cnt(g(y)) == y)),
+        inc=lambda y, y2: z3.Implies(z3.And(y >= 0, y < y2, y2 < m), g(y) < g(y2)),
+        mask=mk, n=n)
     return m, g, cnt
 
 
